@@ -28,6 +28,7 @@ Prod == [
   val   |-> Atom("Value", "$"),        ida  |-> Atom("Identifier", "a"),    idb  |-> Atom("Identifier", "b"),  idc |-> Atom("Identifier", "c"),
   \* ---- binary operators (priority, parser definition, spelling)
   acc   |-> Bin(30, "Access", "."),
+  cast  |-> Bin(70, "TypeCast", "~#"),
   pow   |-> Bin(80, "ExponentialSign", "**"),
   mul   |-> Bin(90, "MultiplicationSign", "*"),  div |-> Bin(90, "Division", "/"),  idiv |-> Bin(90, "IntegerDivision", "//"),
   rem   |-> Bin(90, "Remainder", "%"),
